@@ -25,7 +25,7 @@ def main():
         mp = os.path.join(HERE, 'seeded', r['mutant'], 'meta.json')
         if os.path.exists(mp):
             meta = json.load(open(mp))
-        prop = meta.get('breaks_property') or r['mutant'].split('-')[0]
+        prop = (meta.get('breaks_property') or r['mutant'].split('-')[0]).split()[0].strip(',;')
         fired = r.get('fired', {})
         own = prop in fired
         n_own += own
